@@ -1,5 +1,6 @@
 import Std.Data.HashMap
 import MxV.Model.Msimple
+import MxV.Model.Mfull
 import MxV.Gen.Templates
 /-! Line-protocol driver for the executable models (Mathlib-free; built as `lean_exe mxdriver`).
     One operation per input line, one canonical observation line per operation. -/
@@ -9,8 +10,9 @@ structure Inst where
   tkey : Nat
   p : Particle
   chk : Bool
-  kids : Msimple.Kids
+  kids : Msimple.Kids          -- Msimple state (meaningful while `tame`)
   tame : Bool
+  full : Mfull.Arena           -- Mfull state (checked instances)
 
 structure St where
   insts : HashMap Nat Inst := {}
@@ -24,12 +26,29 @@ def joinNat (l : List Nat) : String := ",".intercalate (l.map toString)
 def dedup (l : List Nat) : List Nat :=
   l.foldl (fun acc n => if acc.contains n then acc else acc ++ [n]) []
 
-def obsStr (i : Inst) : String :=
+/-- observation of the Msimple state -/
+def obsSimple (i : Inst) : String :=
   let ord := if i.chk then Msimple.ordered i.p i.kids else i.kids
   let req := if i.chk then Msimple.required i.p i.kids else []
   s!"o={joinNat (Msimple.ids ord)} u={joinNat (Msimple.ids i.kids)} r={joinNat req}"
 
-def resStr {α} : Except Msimple.Err α → String
+/-- observation of the Mfull state: same call order as the harness (ordered view, then the
+    required-names check, which rewrites flags) -/
+def obsFull (a : Mfull.Arena) : String × Mfull.Arena :=
+  let (r, a1) := Mfull.run a Mfull.orderedChildren
+  match r with
+  | .error e => (s!"o=err:{e.str}", a1)
+  | .ok ord =>
+    let (r2, a2) := Mfull.run a1 (Mfull.getRequiredElementNames false)
+    let rs := match r2 with
+      | .ok l => joinNat l
+      | .error e => "err:" ++ e.str
+    (s!"o={joinNat ord} u={joinNat a2.unordered} r={rs}", a2)
+
+def resS {α} : Except Msimple.Err α → String
+  | .ok _ => "ok"
+  | .error e => "err:" ++ e.str
+def resF {α} : Except Mfull.Err α → String
   | .ok _ => "ok"
   | .error e => "err:" ++ e.str
 
@@ -38,13 +57,18 @@ def parseFwd (toks : List String) : Option Int :=
   | [f] => f.toInt?
   | _ => none
 
+/-- answer format: `<Mfull line>|<Msimple line or ->` -/
+def both (f s : String) : String := f ++ "|" ++ s
+
 def step (st : St) (line : String) : St × String :=
   match (line.trimAscii.toString.splitOn " ").filter (· ≠ "") with
   | ["new", i, t, c] =>
     match i.toNat?, t.toNat?, c.toNat? with
     | some i, some t, some c =>
       match lookupT t Gen.implTemplates with
-      | some p => ({ st with insts := st.insts.insert i ⟨t, p, c == 1, [], Msimple.isTame p⟩ }, "ok")
+      | some p =>
+        let inst : Inst := ⟨t, p, c == 1, [], Msimple.isTame p, Mfull.newInstance p⟩
+        ({ st with insts := st.insts.insert i inst }, "ok|ok")
       | none => (st, "bad-type")
     | _, _, _ => (st, "bad-op")
   | "add" :: i :: cid :: n :: rest =>
@@ -54,14 +78,17 @@ def step (st : St) (line : String) : St × String :=
       | none => (st, "bad-inst")
       | some inst =>
         if !inst.chk then
-          ({ st with insts := st.insts.insert i { inst with kids := inst.kids ++ [(cid, n)] } }, "ok")
-        else if !inst.tame then (st, "unmodelled")
+          ({ st with insts := st.insts.insert i { inst with kids := inst.kids ++ [(cid, n)] } }, "ok|ok")
         else
-          let r := Msimple.add inst.p inst.kids cid n (parseFwd rest)
-          match r with
-          | .ok k => ({ st with insts := st.insts.insert i { inst with kids := k } }, "ok")
-          | .error .unmodelled => ({ st with insts := st.insts.insert i { inst with tame := false } }, "unmodelled")
-          | .error e => (st, "err:" ++ e.str)
+          let fwd := parseFwd rest
+          let (rf, a') := Mfull.run inst.full (Mfull.elAddChild cid n fwd)
+          let inst := { inst with full := a' }
+          if !inst.tame then ({ st with insts := st.insts.insert i inst }, both (resF rf) "-")
+          else
+            match Msimple.add inst.p inst.kids cid n fwd with
+            | .ok k => ({ st with insts := st.insts.insert i { inst with kids := k } }, both (resF rf) "ok")
+            | .error .unmodelled => ({ st with insts := st.insts.insert i { inst with tame := false } }, both (resF rf) "-")
+            | .error e => ({ st with insts := st.insts.insert i inst }, both (resF rf) ("err:" ++ e.str))
     | _, _, _ => (st, "bad-op")
   | ["rm", i, cid] =>
     match i.toNat?, cid.toNat? with
@@ -69,10 +96,17 @@ def step (st : St) (line : String) : St × String :=
       match st.insts[i]? with
       | none => (st, "bad-inst")
       | some inst =>
-        if inst.chk && !inst.tame then (st, "unmodelled") else
-        match Msimple.remove inst.kids cid with
-        | .ok k => ({ st with insts := st.insts.insert i { inst with kids := k } }, "ok")
-        | .error e => (st, "err:" ++ e.str)
+        if !inst.chk then
+          match Msimple.remove inst.kids cid with
+          | .ok k => ({ st with insts := st.insts.insert i { inst with kids := k } }, "ok|ok")
+          | .error e => (st, both ("err:" ++ e.str) ("err:" ++ e.str))
+        else
+          let (rf, a') := Mfull.run inst.full (Mfull.elRemove cid)
+          let inst := { inst with full := a' }
+          if !inst.tame then ({ st with insts := st.insts.insert i inst }, both (resF rf) "-")
+          else match Msimple.remove inst.kids cid with
+            | .ok k => ({ st with insts := st.insts.insert i { inst with kids := k } }, both (resF rf) "ok")
+            | .error e => ({ st with insts := st.insts.insert i inst }, both (resF rf) ("err:" ++ e.str))
     | _, _ => (st, "bad-op")
   | ["repl", i, old, new, n] =>
     match i.toNat?, old.toNat?, new.toNat?, n.toNat? with
@@ -80,22 +114,47 @@ def step (st : St) (line : String) : St × String :=
       match st.insts[i]? with
       | none => (st, "bad-inst")
       | some inst =>
-        if inst.chk && !inst.tame then (st, "unmodelled") else
-        let r := if inst.chk then Msimple.replace inst.kids old new n
-                 else (match inst.kids.find? (·.1 == old) with
-                   | none => .error .notAChild
-                   | some _ => .ok (inst.kids.map (fun c => if c.1 == old then (new, n) else c)))
-        match r with
-        | .ok k => ({ st with insts := st.insts.insert i { inst with kids := k } }, "ok")
-        | .error e => (st, "err:" ++ e.str)
+        if !inst.chk then
+          match inst.kids.find? (·.1 == old) with
+          | none => (st, "err:notAChild|err:notAChild")
+          | some _ =>
+            let inst' := { inst with kids := inst.kids.map (fun c => if c.1 == old then (new, n) else c) }
+            ({ st with insts := st.insts.insert i inst' }, "ok|ok")
+        else
+          let (rf, a') := Mfull.run inst.full (Mfull.elReplace old new n)
+          let inst := { inst with full := a' }
+          if !inst.tame then ({ st with insts := st.insts.insert i inst }, both (resF rf) "-")
+          else match Msimple.replace inst.kids old new n with
+            | .ok k => ({ st with insts := st.insts.insert i { inst with kids := k } }, both (resF rf) "ok")
+            | .error e => ({ st with insts := st.insts.insert i inst }, both (resF rf) ("err:" ++ e.str))
     | _, _, _, _ => (st, "bad-op")
   | ["obs", i] =>
     match i.toNat? with
     | some i =>
       match st.insts[i]? with
       | none => (st, "bad-inst")
-      | some inst => if inst.chk && !inst.tame then (st, "unmodelled") else (st, obsStr inst)
+      | some inst =>
+        if !inst.chk then (st, both (obsSimple inst) (obsSimple inst))
+        else
+          let (s, a') := obsFull inst.full
+          ({ st with insts := st.insts.insert i { inst with full := a' } },
+            both s (if inst.tame then obsSimple inst else "-"))
     | none => (st, "bad-op")
+  | ["check", i, ic] =>
+    match i.toNat?, ic.toNat? with
+    | some i, some ic =>
+      match st.insts[i]? with
+      | none => (st, "bad-inst")
+      | some inst =>
+        if !inst.chk then (st, "r=|r=")
+        else
+          let (r, a') := Mfull.run inst.full (Mfull.getRequiredElementNames (ic == 1))
+          let rs := match r with
+            | .ok l => joinNat l
+            | .error e => "err:" ++ e.str
+          ({ st with insts := st.insts.insert i { inst with full := a' } },
+            both ("r=" ++ rs) (if inst.tame then "r=" ++ joinNat (Msimple.required inst.p inst.kids) else "-"))
+    | _, _ => (st, "bad-op")
   | ["probe", i] =>
     -- acceptance of one more child of every symbol of the alphabet (on throw-away copies)
     match i.toNat? with
@@ -103,14 +162,22 @@ def step (st : St) (line : String) : St × String :=
       match st.insts[i]? with
       | none => (st, "bad-inst")
       | some inst =>
-        if inst.chk && !inst.tame then (st, "unmodelled") else
         let alpha := (dedup inst.p.leaves)
-        let parts := alpha.map (fun n =>
-          if !inst.chk then s!"{n}:ok:" else
+        if !inst.chk then (st, both ("p=" ++ ";".intercalate (alpha.map fun n => s!"{n}:ok:")) "-") else
+        let partsF := alpha.map (fun n =>
+          let (r, a1) := Mfull.run inst.full (Mfull.elAddChild 1000000 n none)
+          match r with
+          | .ok _ =>
+            let (r2, _) := Mfull.run a1 (do discard <| Mfull.orderedChildren; Mfull.getRequiredElementNames false)
+            match r2 with
+            | .ok l => s!"{n}:ok:{joinNat l}"
+            | .error e => s!"{n}:ok:err:{e.str}"
+          | .error e => s!"{n}:err:{e.str}:")
+        let partsS := alpha.map (fun n =>
           match Msimple.add inst.p inst.kids 1000000 n with
           | .ok k => s!"{n}:ok:{joinNat (Msimple.required inst.p k)}"
           | .error e => s!"{n}:err:{e.str}:")
-        (st, "p=" ++ ";".intercalate parts)
+        (st, both ("p=" ++ ";".intercalate partsF) (if inst.tame then "p=" ++ ";".intercalate partsS else "-"))
     | none => (st, "bad-op")
   | ["accepts", t, w] =>
     -- verified content-model oracle on the *spec* particle: word as comma separated name indices
